@@ -11,16 +11,17 @@ Definition no_tombs (S : sys) : Prop := forall p, tombs (get p S) = [].
 (* part 1: replicas without deletion records — a pull is the join                          *)
 (* ====================================================================================== *)
 Lemma sync_day_notombs : forall src dst cnt d0, tombs src = [] -> tombs dst = [] ->
-  sync_day src (dst, cnt) d0 =
-  ({| nodes := merge (nodes dst) (on_day d0 (nodes src)); tombs := [] |},
-   (cnt + N.of_nat (length (filter (wanted (nodes dst)) (on_day d0 (nodes src)))))%N).
+  nodes (fst (sync_day src (dst, cnt) d0)) = merge (nodes dst) (on_day d0 (nodes src)) /\
+  tombs (fst (sync_day src (dst, cnt) d0)) = [] /\
+  snd (sync_day src (dst, cnt) d0) = (cnt + N.of_nat (length (filter (wanted (nodes dst)) (on_day d0 (nodes src)))))%N.
 Proof.
-  intros src dst cnt d0 Hs Hd. unfold sync_day. rewrite Hs. cbn [tombs_on_day filter fold_left]. rewrite Hd.
+  intros src dst cnt d0 Hs Hd. unfold sync_day. rewrite Hs. cbn [tombs_on_day filter fold_left fst snd nodes tombs].
+  destruct (fold_apply_etomb_fields (etombs_on_day d0 (etombs src)) dst) as [N0 T0]. rewrite N0, T0, Hd.
   match goal with |- context [filter ?f (on_day d0 (nodes src))] =>
     assert (Hf : filter f (on_day d0 (nodes src)) = filter (wanted (nodes dst)) (on_day d0 (nodes src)))
   end.
   { apply filter_ext. intros o. cbn [below_tomb existsb negb]. apply Bool.andb_true_r. }
-  rewrite Hf. reflexivity.
+  rewrite Hf. repeat split; reflexivity.
 Qed.
 
 Lemma pull_fold : forall days src dst cnt, tombs src = [] -> tombs dst = [] ->
@@ -30,11 +31,10 @@ Lemma pull_fold : forall days src dst cnt, tombs src = [] -> tombs dst = [] ->
 Proof.
   induction days as [|d0 rest IH]; intros src dst cnt Hs Hd; cbn [fold_left pull_nodes pull_count].
   - cbn. repeat split; try assumption. lia.
-  - rewrite (sync_day_notombs src dst cnt d0 Hs Hd).
-    specialize (IH src {| nodes := merge (nodes dst) (on_day d0 (nodes src)); tombs := [] |}
-                   (cnt + N.of_nat (length (filter (wanted (nodes dst)) (on_day d0 (nodes src)))))%N Hs eq_refl).
-    cbn [nodes tombs] in IH. destruct IH as [I1 [I2 I3]]. repeat split; try assumption.
-    rewrite I3. lia.
+  - destruct (sync_day_notombs src dst cnt d0 Hs Hd) as [A [B C]].
+    destruct (sync_day src (dst, cnt) d0) as [r1 c1] eqn:E. cbn [fst snd] in A, B, C.
+    specialize (IH src r1 c1 Hs B). cbv zeta in IH. destruct IH as [I1 [I2 I3]].
+    rewrite A in I1, I3. repeat split; try assumption. rewrite I3, C. lia.
 Qed.
 
 Lemma pull_replica_notombs : forall dst src days, tombs src = [] -> tombs dst = [] ->
@@ -93,22 +93,24 @@ Definition is_delete (o : sop) : bool := match o with Delete _ _ _ => true | _ =
 Lemma step_inv : forall S o, wf S -> no_tombs S -> is_delete o = false ->
   wf (fst (fst (step S o))) /\ no_tombs (fst (fst (step S o))) /\ length (fst (fst (step S o))) = length S.
 Proof.
-  intros S o Hw Ht Hd. destruct o as [p x t sg|p x t sg|p x t|d s days]; cbn [step is_delete] in *.
-  - cbn [fst]. repeat split.
-    + apply wf_set; [exact Hw|]. cbn [nodes]. apply nodup_ids_put. apply Hw.
-    + apply no_tombs_set; [exact Ht|]. cbn [tombs]. apply Ht.
-    + apply length_set.
-  - destruct (find_node x (nodes (get p S))); cbn [fst]; repeat split; auto.
-    + apply wf_set; [exact Hw|]. cbn [nodes]. apply nodup_ids_put. apply Hw.
-    + apply no_tombs_set; [exact Ht|]. cbn [tombs]. apply Ht.
-    + apply length_set.
+  intros S o Hw Ht Hd.
+  assert (K : forall p r, nodup_ids (nodes r) -> tombs r = [] ->
+              wf (set p r S) /\ no_tombs (set p r S) /\ length (set p r S) = length S).
+  { intros p r H1 H2. repeat split; [apply wf_set|apply no_tombs_set|apply length_set]; assumption. }
+  destruct o as [p x t sg|p x t sg|p x t|p x y t sg|p x y t sg|d s days]; cbn [step is_delete] in *.
+  - cbn [fst]. apply K; unfold with_nodes; cbn [nodes tombs]; [apply nodup_ids_put; apply Hw|apply Ht].
+  - destruct (find_node x (nodes (get p S))); cbn [fst]; [|auto].
+    apply K; unfold with_nodes; cbn [nodes tombs]; [apply nodup_ids_put; apply Hw|apply Ht].
   - discriminate.
+  - destruct (find_node x (nodes (get p S))); [|cbn [fst]; auto]. destruct (find_node y (nodes (get p S))); [|cbn [fst]; auto].
+    destruct (find_edge x y (edges (get p S))); cbn [fst]; [auto|].
+    apply K; cbn [nodes tombs]; [apply nodup_ids_put; apply Hw|apply Ht].
+  - destruct (find_node x (nodes (get p S))); [|cbn [fst]; auto].
+    destruct (find_edge x y (edges (get p S))); cbn [fst]; apply K; unfold with_nodes; cbn [nodes tombs];
+      try (apply nodup_ids_put; apply Hw); apply Ht.
   - destruct (pull_replica_notombs (get d S) (get s S) days (Ht s) (Ht d)) as [A [B _]].
     destruct (pull_replica (get d S) (get s S) days) as [r cnt]. cbn [fst snd] in *.
-    repeat split.
-    + apply wf_set; [exact Hw|]. rewrite A. apply nodup_ids_pull_nodes. apply Hw.
-    + apply no_tombs_set; [exact Ht|]. exact B.
-    + apply length_set.
+    apply K; [rewrite A; apply nodup_ids_pull_nodes; apply Hw|exact B].
 Qed.
 
 Lemma init_wf : forall n, wf (init_sys n) /\ no_tombs (init_sys n) /\ length (init_sys n) = N.to_nat n.
@@ -126,10 +128,14 @@ Qed.
 (* ====================================================================================== *)
 Lemma length_step : forall S o, length (fst (fst (step S o))) = length S.
 Proof.
-  intros S o. destruct o as [p x t sg|p x t sg|p x t|d s days]; cbn [step].
+  intros S o. destruct o as [p x t sg|p x t sg|p x t|p x y t sg|p x y t sg|d s days]; cbn [step].
   - apply length_set.
   - destruct (find_node x (nodes (get p S))); cbn [fst]; [apply length_set|reflexivity].
   - destruct (find_node x (nodes (get p S))); cbn [fst]; [apply length_set|reflexivity].
+  - destruct (find_node x (nodes (get p S))); [|reflexivity]. destruct (find_node y (nodes (get p S))); [|reflexivity].
+    destruct (find_edge x y (edges (get p S))); cbn [fst]; [reflexivity|apply length_set].
+  - destruct (find_node x (nodes (get p S))); [|reflexivity].
+    destruct (find_edge x y (edges (get p S))); cbn [fst]; apply length_set.
   - destruct (pull_replica (get d S) (get s S) days). cbn [fst]. apply length_set.
 Qed.
 Lemma length_run : forall ops S, length (run_sys S ops) = length S.
@@ -150,7 +156,7 @@ Lemma still_fixed : forall final S, still S final = true ->
   (forall d s days, In (Pull d s days) final -> pull_still (get d S) (get s S) days = true).
 Proof.
   induction final as [|o final IH]; intros S H; [repeat split; intros d s days []|].
-  destruct o as [p x t sg|p x t sg|p x t|d s days]; cbn [still] in H; try discriminate.
+  destruct o as [p x t sg|p x t sg|p x t|p x y t sg|p x y t sg|d s days]; cbn [still] in H; try discriminate.
   apply Bool.andb_true_iff in H. destruct H as [H1 H2]. destruct (IH S H2) as [I1 [I2 I3]].
   assert (E : fst (fst (step S (Pull d s days))) = S).
   { cbn [step]. rewrite (pull_still_fixed _ _ _ H1). cbn [fst]. apply set_get_same. }
@@ -164,7 +170,7 @@ Lemma run_complete_still : forall final S, still S final = true -> run_complete 
   forall d s days, In (Pull d s days) final -> days_cover days (needed_days (get d S) (get s S)) = true.
 Proof.
   induction final as [|o final IH]; intros S H Hc d s days Hin; [inversion Hin|].
-  destruct o as [p x t sg|p x t sg|p x t|d0 s0 days0]; cbn [still] in H; try discriminate.
+  destruct o as [p x t sg|p x t sg|p x t|p x y t sg|p x y t sg|d0 s0 days0]; cbn [still] in H; try discriminate.
   apply Bool.andb_true_iff in H. destruct H as [H1 H2].
   cbn [run_complete] in Hc. apply Bool.andb_true_iff in Hc. destruct Hc as [Hc0 Hc].
   assert (E : fst (fst (step S (Pull d0 s0 days0))) = S).
@@ -174,22 +180,44 @@ Qed.
 
 (* what one still day says *)
 Lemma day_still_facts : forall dst src d, day_still dst src d = true ->
-  let dst1 := fold_left apply_tomb (tombs_on_day d (tombs src)) dst in
-  nodes dst1 = nodes dst /\ tombs dst1 = tombs dst /\
-  filter (fun o => wanted (nodes dst1) o && negb (below_tomb (tombs dst1) o))%bool (on_day d (nodes src)) = [].
+  let dst0 := fold_left apply_etomb (etombs_on_day d (etombs src)) dst in
+  let dst1 := fold_left apply_tomb (tombs_on_day d (tombs src)) dst0 in
+  nodes dst1 = nodes dst /\ tombs dst1 = tombs dst /\ etombs dst0 = etombs dst /\
+  filter (fun o => wanted (nodes dst1) o && negb (below_tomb (tombs dst1) o))%bool (on_day d (nodes src)) = [] /\
+  fst (sync_day src (dst, 0%N) d) = dst.
 Proof.
-  intros dst src d H. unfold day_still, sync_day in H.
-  set (dst1 := fold_left apply_tomb (tombs_on_day d (tombs src)) dst) in *.
-  set (fetch := filter (fun o => (wanted (nodes dst1) o && negb (below_tomb (tombs dst1) o))%bool) (on_day d (nodes src))) in *.
+  intros dst src d H. unfold day_still in H. destruct (sync_day src (dst, 0%N) d) as [r c] eqn:E.
   apply Bool.andb_true_iff in H. destruct H as [Hc Hr]. apply N.eqb_eq in Hc. apply replica_eqb_eq in Hr.
-  assert (Hf : fetch = []) by (destruct fetch; [reflexivity|cbn [length] in Hc; lia]).
-  rewrite Hf in Hr. cbn [fold_left] in Hr.
-  pose proof (f_equal nodes Hr) as E1. pose proof (f_equal tombs Hr) as E2. cbn [nodes tombs] in E1, E2.
-  cbv zeta. repeat split; assumption.
+  rewrite Hr, Hc in E. unfold sync_day in E.
+  set (dst0 := fold_left apply_etomb (etombs_on_day d (etombs src)) dst) in *.
+  set (dst1 := fold_left apply_tomb (tombs_on_day d (tombs src)) dst0) in *.
+  set (fetch := filter (fun o => (wanted (nodes dst1) o && negb (below_tomb (tombs dst1) o))%bool) (on_day d (nodes src))) in *.
+  injection E as E1 E2.
+  assert (Hf : fetch = []) by (destruct fetch; [reflexivity|cbn [length] in E2; lia]).
+  rewrite Hf in E1. cbn [fold_left] in E1.
+  pose proof (f_equal nodes E1) as A1. pose proof (f_equal tombs E1) as A2. pose proof (f_equal etombs E1) as A4.
+  cbn [nodes tombs etombs] in A1, A2, A4.
+  assert (A3 : etombs dst0 = etombs dst).
+  { rewrite <- A4. unfold dst1. symmetry. apply (proj2 (fold_apply_tomb_fields _ dst0)). }
+  cbv zeta. cbn [fst]. repeat split; try assumption.
+
 Qed.
 
 Lemma in_days : forall d days, existsb (Z.eqb d) days = true -> In d days.
 Proof. intros d days H. apply existsb_exists in H. destruct H as [y [Hy E]]. apply Z.eqb_eq in E. subst. exact Hy. Qed.
+
+Lemma days_cover_parts : forall days dst src, days_cover days (needed_days dst src) = true ->
+  (forall n, In n (nodes src) -> wanted (nodes dst) n = true -> In (day (n_mdate n)) days) /\
+  (forall t, In t (tombs src) -> has_tomb (tombs dst) t = false -> In (day (t_ddate t)) days) /\
+  (forall t, In t (etombs src) -> has_etomb (etombs dst) t = false -> In (day (et_ddate t)) days).
+Proof.
+  intros days dst src Hc. unfold days_cover, needed_days in Hc. rewrite !forallb_app in Hc.
+  apply Bool.andb_true_iff in Hc. destruct Hc as [H1 Hc]. apply Bool.andb_true_iff in Hc. destruct Hc as [H2 H3].
+  rewrite forallb_forall in H1, H2, H3. repeat split.
+  - intros n Hn W. apply in_days. apply H1. apply in_map_iff. exists n. split; [reflexivity|]. apply filter_In. split; assumption.
+  - intros t Ht E. apply in_days. apply H2. apply in_map_iff. exists t. split; [reflexivity|]. apply filter_In. split; [exact Ht|]. rewrite E. reflexivity.
+  - intros t Ht E. apply in_days. apply H3. apply in_map_iff. exists t. split; [reflexivity|]. apply filter_In. split; [exact Ht|]. rewrite E. reflexivity.
+Qed.
 
 (* a complete pull that moves nothing: the receiver holds every deletion record of the source ... *)
 Lemma still_tombs : forall dst src days, keys_unique (tombs src) ->
@@ -198,16 +226,29 @@ Lemma still_tombs : forall dst src days, keys_unique (tombs src) ->
 Proof.
   intros dst src days Hk Hs Hc t Ht.
   destruct (has_tomb (tombs dst) t) eqn:E; [apply has_tomb_in; exact E|].
-  unfold days_cover, needed_days in Hc. rewrite forallb_app in Hc. apply Bool.andb_true_iff in Hc. destruct Hc as [_ Hc].
-  rewrite forallb_forall in Hc.
-  assert (Hd : In (day (t_ddate t)) days).
-  { apply in_days. apply Hc. apply in_map_iff. exists t. split; [reflexivity|]. apply filter_In. split; [exact Ht|]. rewrite E. reflexivity. }
+  destruct (days_cover_parts _ _ _ Hc) as [_ [P2 _]]. pose proof (P2 t Ht E) as Hd.
   unfold pull_still in Hs. rewrite forallb_forall in Hs.
   destruct (day_still_facts _ _ _ (Hs _ Hd)) as [_ [Ht2 _]].
-  rewrite <- Ht2, tombs_fold_apply.
+  rewrite <- Ht2, tombs_fold_apply, (proj2 (fold_apply_etomb_fields _ dst)).
   apply (fold_put_has (tombs src)); try assumption.
   - intros u Hu. unfold tombs_on_day in Hu. apply filter_In in Hu. tauto.
   - left. unfold tombs_on_day. apply filter_In. split; [exact Ht|apply Z.eqb_refl].
+Qed.
+
+(* ... every reference deletion record of the source ... *)
+Lemma still_etombs : forall dst src days, ekeys_unique (etombs src) ->
+  pull_still dst src days = true -> days_cover days (needed_days dst src) = true ->
+  forall t, In t (etombs src) -> In t (etombs dst).
+Proof.
+  intros dst src days Hk Hs Hc t Ht.
+  destruct (has_etomb (etombs dst) t) eqn:E; [apply has_etomb_in; exact E|].
+  destruct (days_cover_parts _ _ _ Hc) as [_ [_ P3]]. pose proof (P3 t Ht E) as Hd.
+  unfold pull_still in Hs. rewrite forallb_forall in Hs.
+  destruct (day_still_facts _ _ _ (Hs _ Hd)) as [_ [_ [Ht3 _]]].
+  rewrite <- Ht3, etombs_fold_apply.
+  apply (fold_eput_has (etombs src)); try assumption.
+  - intros u Hu. unfold etombs_on_day in Hu. apply filter_In in Hu. tauto.
+  - left. unfold etombs_on_day. apply filter_In. split; [exact Ht|apply Z.eqb_refl].
 Qed.
 
 (* ... and every row of the source is either not newer than the receiver's version, or at or below a
@@ -218,12 +259,9 @@ Lemma still_rows : forall dst src days,
 Proof.
   intros dst src days Hs Hc n Hn.
   destruct (wanted (nodes dst) n) eqn:W; [right|left; reflexivity].
-  unfold days_cover, needed_days in Hc. rewrite forallb_app in Hc. apply Bool.andb_true_iff in Hc. destruct Hc as [Hc _].
-  rewrite forallb_forall in Hc.
-  assert (Hd : In (day (n_mdate n)) days).
-  { apply in_days. apply Hc. apply in_map_iff. exists n. split; [reflexivity|]. apply filter_In. split; assumption. }
+  destruct (days_cover_parts _ _ _ Hc) as [P1 _]. pose proof (P1 n Hn W) as Hd.
   unfold pull_still in Hs. rewrite forallb_forall in Hs.
-  destruct (day_still_facts _ _ _ (Hs _ Hd)) as [Hn1 [Ht1 Hf]]. rewrite Hn1, Ht1 in Hf.
+  destruct (day_still_facts _ _ _ (Hs _ Hd)) as [Hn1 [Ht1 [_ [Hf _]]]]. rewrite Hn1, Ht1 in Hf.
   destruct (below_tomb (tombs dst) n) eqn:B; [reflexivity|]. exfalso.
   assert (In n (filter (fun o => (wanted (nodes dst) o && negb (below_tomb (tombs dst) o))%bool) (on_day (day (n_mdate n)) (nodes src)))).
   { apply filter_In. split; [unfold on_day; apply filter_In; split; [exact Hn|apply Z.eqb_refl]|]. rewrite W, B. reflexivity. }
@@ -241,15 +279,43 @@ Proof.
   - pose proof (find_node_in _ n Hb Hin) as F. rewrite <- Hv in F. apply find_node_some in F. apply has_row_in. apply F.
 Qed.
 
-(* two replicas that pull from each other completely without moving anything agree *)
+Lemma visible_ext : forall a b e, (forall x, find_node x (nodes a) = find_node x (nodes b)) -> visible a e = visible b e.
+Proof. intros a b e H. unfold visible. rewrite !H. reflexivity. Qed.
+
+Lemma ecovered_mono : forall l1 l2 e, (forall t, In t l1 -> In t l2) -> ecovered l1 e = true -> ecovered l2 e = true.
+Proof.
+  intros l1 l2 e H E. unfold ecovered in *. apply existsb_exists in E. destruct E as [t [Hin Ht]].
+  apply existsb_exists. exists t. split; [apply H; exact Hin|exact Ht].
+Qed.
+
+Lemma refs_side : forall a b, (forall x, find_node x (nodes a) = find_node x (nodes b)) ->
+  (forall t, In t (etombs b) -> In t (etombs a)) ->
+  refs_delivered a b = true -> refs_coherent a = true -> forallb (ref_held b) (shown_refs a) = true.
+Proof.
+  intros a b Hv Ht Hd Hc. apply forallb_forall. intros e He.
+  unfold refs_delivered in Hd. apply Bool.andb_true_iff in Hd. destruct Hd as [Hd _].
+  rewrite forallb_forall in Hd. specialize (Hd e He).
+  pose proof He as He'. unfold shown_refs in He'. apply filter_In in He'. destruct He' as [Hin Hvis].
+  rewrite <- (visible_ext a b e Hv), Hvis in Hd. cbn [negb] in Hd. rewrite Bool.orb_false_r in Hd.
+  apply Bool.orb_true_iff in Hd. destruct Hd as [Hd|Hd]; [exact Hd|]. exfalso.
+  pose proof (ecovered_mono _ _ e Ht Hd) as Hca.
+  unfold refs_coherent, refs_stay_deleted in Hc. rewrite forallb_forall in Hc. specialize (Hc e Hin).
+  rewrite Hca in Hc. discriminate.
+Qed.
+
+(* two replicas that pull from each other completely without moving anything, with no reference left
+   undelivered and none below a reference deletion record, agree *)
 Lemma mutual_still_agree : forall a b da db, good a -> good b ->
   pull_still a b da = true -> days_cover da (needed_days a b) = true ->
   pull_still b a db = true -> days_cover db (needed_days b a) = true ->
+  refs_delivered b a = true -> refs_delivered a b = true -> refs_coherent a = true -> refs_coherent b = true ->
   agree a b = true.
 Proof.
-  intros a b da db Ga Gb Sa Ca Sb Cb.
-  pose proof (still_tombs a b da (g_keys _ Gb) Sa Ca) as Tba.   (* tombs b ⊆ tombs a *)
-  pose proof (still_tombs b a db (g_keys _ Ga) Sb Cb) as Tab.   (* tombs a ⊆ tombs b *)
+  intros a b da db Ga Gb Sa Ca Sb Cb Rba Rab Ka Kb.
+  pose proof (still_tombs a b da (g_keys _ Gb) Sa Ca) as Tba.   (* tombs b in tombs a *)
+  pose proof (still_tombs b a db (g_keys _ Ga) Sb Cb) as Tab.   (* tombs a in tombs b *)
+  pose proof (still_etombs a b da (g_ekeys _ Gb) Sa Ca) as Eba.
+  pose proof (still_etombs b a db (g_ekeys _ Ga) Sb Cb) as Eab.
   assert (Lab : views_le (nodes a) (nodes b)).
   { intros n Hn. destruct (still_rows a b da Sa Ca n Hn) as [W|B]; [exact W|]. exfalso.
     destruct (below_tomb_true _ _ B) as [t [Ht [Hid Hle]]].
@@ -258,17 +324,31 @@ Proof.
   { intros n Hn. destruct (still_rows b a db Sb Cb n Hn) as [W|B]; [exact W|]. exfalso.
     destruct (below_tomb_true _ _ B) as [t [Ht [Hid Hle]]].
     pose proof (g_inv _ Ga n t Hn (Tba t Ht) Hid). lia. }
-  unfold agree. apply Bool.andb_true_iff. split.
-  - apply same_view_rows; [apply Ga|apply Gb|]. apply views_le_antisym; [apply Ga|apply Gb|exact Lab|exact Lba].
+  pose proof (views_le_antisym _ _ (g_ids _ Ga) (g_ids _ Gb) Lab Lba) as Hv.
+  unfold agree. apply Bool.andb_true_iff; split; [apply Bool.andb_true_iff; split; [apply Bool.andb_true_iff; split|]|].
+  - apply same_view_rows; [apply Ga|apply Gb|exact Hv].
   - unfold same_tombs, tombs_subset. apply Bool.andb_true_iff. split; apply forallb_forall; intros t Ht; apply has_tomb_in; auto.
+  - unfold same_refs. apply Bool.andb_true_iff. split.
+    + apply (refs_side a b Hv Eba Rab Ka).
+    + apply (refs_side b a (fun x => eq_sym (Hv x)) Eab Rba Kb).
+  - unfold same_etombs. apply Bool.andb_true_iff. split; apply forallb_forall; intros t Ht; apply has_etomb_in; auto.
+Qed.
+
+Lemma find_edge_in : forall l e, In e l -> find_edge (e_src e) (e_dest e) l <> None.
+Proof.
+  intros l e H E. unfold find_edge in E. apply (find_none _ _ E) in H. rewrite !N.eqb_refl in H. discriminate.
 Qed.
 
 Lemma agree_refl : forall a, agree a a = true.
 Proof.
-  intros a. unfold agree, same_rows, same_tombs, rows_subset, tombs_subset.
+  intros a. unfold agree, same_rows, same_tombs, same_refs, same_etombs, rows_subset, tombs_subset.
   assert (R : forallb (has_row (nodes a)) (nodes a) = true) by (apply forallb_forall; intros n Hn; apply has_row_in; exact Hn).
   assert (T : forallb (has_tomb (tombs a)) (tombs a) = true) by (apply forallb_forall; intros n Hn; apply has_tomb_in; exact Hn).
-  rewrite R, T. reflexivity.
+  assert (X : forallb (has_etomb (etombs a)) (etombs a) = true) by (apply forallb_forall; intros n Hn; apply has_etomb_in; exact Hn).
+  assert (E : forallb (ref_held a) (shown_refs a) = true).
+  { apply forallb_forall. intros e He. unfold shown_refs in He. apply filter_In in He. destruct He as [He _].
+    unfold ref_held. destruct (find_edge (e_src e) (e_dest e) (edges a)) eqn:F; [reflexivity|]. exfalso. apply (find_edge_in _ _ He F). }
+  rewrite R, T, X, E. reflexivity.
 Qed.
 
 Lemma all_agree_pairwise : forall L : sys,
@@ -293,21 +373,72 @@ Proof.
   apply Bool.orb_true_iff in H. destruct H as [H|H].
   - apply N.eqb_eq in H. contradiction.
   - apply existsb_exists in H. destruct H as [o [Hin Hp]].
-    destruct o as [p x t sg|p x t sg|p x t|d' s' days]; try discriminate. cbn [is_pull] in Hp.
+    destruct o as [p x t sg|p x t sg|p x t|p x y t sg|p x y t sg|d' s' days]; try discriminate. cbn [is_pull] in Hp.
     apply Bool.andb_true_iff in Hp. destruct Hp as [H1 H2]. apply N.eqb_eq in H1. apply N.eqb_eq in H2. subst.
     exists days. exact Hin.
 Qed.
 
-Lemma known_nil_complete : forall c, known_C03 c = [] -> run_complete (init_sys (c03_n c)) (c03_ops c) = true.
+Lemma known_nil_parts : forall c, known_C03 c = [] ->
+  run_complete (init_sys (c03_n c)) (c03_ops c) = true /\
+  run_refs_ok (init_sys (c03_n c)) (c03_ops c) = true /\
+  run_refs_coherent (init_sys (c03_n c)) (c03_ops c) = true.
 Proof.
-  intros c H. unfold known_C03 in H. destruct (run_complete (init_sys (c03_n c)) (c03_ops c)); [reflexivity|discriminate].
+  intros c H. unfold known_C03 in H.
+  destruct (run_complete (init_sys (c03_n c)) (c03_ops c)); [|discriminate].
+  destruct (run_refs_ok (init_sys (c03_n c)) (c03_ops c)); [|discriminate].
+  destruct (run_refs_coherent (init_sys (c03_n c)) (c03_ops c)); [|discriminate]. auto.
 Qed.
 
-(* C03 outside the one class that is still open: any number of peers, any history of creations,
-   updates (any clocks inside the envelope, same-millisecond ties included), DELETIONS and pulls in any
-   order, every pull having selected the days a complete comparison selects (known_C03 = []), ending
-   with rounds in which every ordered pair pulls and nothing moves: every member holds the same rows
-   and the same deletion records *)
+Lemma run_refs_ok_app : forall a b S, run_refs_ok S (a ++ b) = (run_refs_ok S a && run_refs_ok (run_sys S a) b)%bool.
+Proof.
+  induction a as [|o a IH]; intros b S; cbn [app run_refs_ok run_sys]; [reflexivity|].
+  rewrite IH, Bool.andb_assoc. reflexivity.
+Qed.
+Lemma run_refs_coherent_app : forall a b S,
+  run_refs_coherent S (a ++ b) = (run_refs_coherent S a && run_refs_coherent (run_sys S a) b)%bool.
+Proof.
+  induction a as [|o a IH]; intros b S; cbn [app run_refs_coherent run_sys]; [reflexivity|].
+  rewrite IH, Bool.andb_assoc. reflexivity.
+Qed.
+
+Lemma step_still : forall S d s days, pull_still (get d S) (get s S) days = true -> fst (fst (step S (Pull d s days))) = S.
+Proof. intros. cbn [step]. rewrite (pull_still_fixed _ _ _ H). cbn [fst]. apply set_get_same. Qed.
+
+Lemma run_refs_still : forall final S, still S final = true -> run_refs_ok S final = true ->
+  forall d s days, In (Pull d s days) final -> refs_delivered (get s S) (get d S) = true.
+Proof.
+  induction final as [|o final IH]; intros S H Hc d s days Hin; [inversion Hin|].
+  destruct o as [p x t sg|p x t sg|p x t|p x y t sg|p x y t sg|d0 s0 days0]; cbn [still] in H; try discriminate.
+  apply Bool.andb_true_iff in H. destruct H as [H1 H2].
+  cbn [run_refs_ok] in Hc. rewrite (step_still S d0 s0 days0 H1) in Hc.
+  apply Bool.andb_true_iff in Hc. destruct Hc as [Hc0 Hc].
+  destruct Hin as [Heq|Hin]; [inversion Heq; subst; exact Hc0|apply (IH S H2 Hc d s days); exact Hin].
+Qed.
+
+Lemma run_coherent_still : forall final S d s days, still S final = true -> run_refs_coherent S final = true ->
+  In (Pull d s days) final -> forallb refs_coherent S = true.
+Proof.
+  intros final S d s days H Hc Hin. destruct final as [|o final]; [inversion Hin|].
+  destruct o as [p x t sg|p x t sg|p x t|p x y t sg|p x y t sg|d0 s0 days0]; cbn [still] in H; try discriminate.
+  apply Bool.andb_true_iff in H. destruct H as [H1 _].
+  cbn [run_refs_coherent] in Hc. rewrite (step_still S d0 s0 days0 H1) in Hc.
+  apply Bool.andb_true_iff in Hc. apply Hc.
+Qed.
+
+Lemma coherent_get : forall S p, forallb refs_coherent S = true -> refs_coherent (get p S) = true.
+Proof.
+  intros S p H. unfold get. destruct (nth_in_or_default (N.to_nat p) S empty_replica) as [Hin|Hd].
+  - rewrite forallb_forall in H. apply H. exact Hin.
+  - rewrite Hd. reflexivity.
+Qed.
+
+(* C03 outside the classes that are still open: any number of peers, any history of creations, updates
+   (any clocks inside the envelope, same-millisecond ties included), deletions, REFERENCE additions and
+   removals, and pulls in any order — every pull having selected the days a complete comparison selects,
+   having left no reference undelivered, and no reference ever lying below a reference deletion record
+   (known_C03 = []) —, ending with rounds in which every ordered pair pulls and nothing moves: every
+   member holds the same rows, the same deletion records, shows the same references and holds the same
+   reference deletion records *)
 Theorem outside_known : forall n hist final,
   let c := C03Case n hist final in
   known_C03 c = [] -> c03_envelope c = true ->
@@ -315,8 +446,10 @@ Theorem outside_known : forall n hist final,
   all_agree (run_sys (init_sys n) (hist ++ final)) = true.
 Proof.
   intros n hist final c Hk He Hfr Hq.
-  pose proof (known_nil_complete c Hk) as Hc. cbn [c c03_n c03_ops] in Hc.
+  destruct (known_nil_parts c Hk) as [Hc [Hro Hrc]]. cbn [c c03_n c03_ops] in Hc, Hro, Hrc.
   rewrite run_complete_app in Hc. apply Bool.andb_true_iff in Hc. destruct Hc as [_ Hc].
+  rewrite run_refs_ok_app in Hro. apply Bool.andb_true_iff in Hro. destruct Hro as [_ Hro].
+  rewrite run_refs_coherent_app in Hrc. apply Bool.andb_true_iff in Hrc. destruct Hrc as [_ Hrc].
   unfold c03_envelope in He. apply Bool.negb_true_iff in He. cbn [c c03_n c03_ops] in He.
   rewrite run_guard_app in He. apply Bool.orb_false_iff in He. destruct He as [He _].
   pose proof (run_good hist (init_sys n) (init_good n) He) as G.
@@ -324,6 +457,7 @@ Proof.
   set (S1 := run_sys (init_sys n) hist) in *.
   destruct (still_fixed final S1 Hq) as [Hfix [_ Hst]].
   pose proof (run_complete_still final S1 Hq Hc) as Hcov.
+  pose proof (run_refs_still final S1 Hq Hro) as Hdel.
   rewrite run_sys_app. fold S1. rewrite Hfix.
   assert (L1 : length S1 = N.to_nat n).
   { unfold S1. rewrite length_run. apply repeat_length. }
@@ -336,11 +470,16 @@ Proof.
   destruct (full_round_pull n final (N.of_nat i) (N.of_nat j) Hfr (in_peers n i Hi) (in_peers n j Hj) Hne') as [d1 H1].
   assert (Hne'' : N.of_nat j <> N.of_nat i) by congruence.
   destruct (full_round_pull n final (N.of_nat j) (N.of_nat i) Hfr (in_peers n j Hj) (in_peers n i Hi) Hne'') as [d2 H2].
+  pose proof (run_coherent_still final S1 _ _ _ Hq Hrc H1) as Hco.
   apply (mutual_still_agree _ _ d1 d2); try apply G.
   - apply (Hst _ _ _ H1).
   - apply (Hcov _ _ _ H1).
   - apply (Hst _ _ _ H2).
   - apply (Hcov _ _ _ H2).
+  - apply (Hdel _ _ _ H1).
+  - apply (Hdel _ _ _ H2).
+  - apply coherent_get. exact Hco.
+  - apply coherent_get. exact Hco.
 Qed.
 
 (* inside the envelope the content of every member is coherent at every point, hence also when converged *)
